@@ -326,14 +326,19 @@ ADDED2 = {
     'C19': ' Q1/Q8 as for C18.',
 }
 ADDED3 = {
-    'C02': ' A10: no double free / use after free. The join of the bounds engine proposes invariants for lockstep counters and sums without unknown unsigned terms.',
+    'C02': ' A10: no double free / use after free. The join of the bounds engine proposes invariants for lockstep counters and sums without unknown unsigned terms. '
+           'Unsigned differences are modelled with their wrap-around (the mathematical value only where the state shows it cannot be negative); '
+           'the data sources are analysed under a size floor of 16 bytes that every call site has to guarantee.',
     'C03': ' B9 released blocks are left alone; B10 a failed read/write ends its loop.',
     'C04': ' R1 also: nothing reachable from the configuration constructor emits (the configuration is loaded before the chain is consulted). '
            'R4: the devlog socket is "/dev/log" or a configured path whose default is "/dev/log".',
     'C07': ' F2 also: within one turn of the chain loop only the element\'s own text, the registry\'s answer and a DROP verdict decide whether '
            'the filter call is reached. F4 shares the silent-configuration clause of C04.',
-    'C08': ' T3 also: the syslog converters return table values only; further accepted names must be documented aliases of printable values.',
+    'C08': ' T3 also: the syslog converters return table values only; further accepted names must be documented aliases of printable values. '
+           'T4 also: every multiplication with the parsed number is formed in a 64-bit type.',
+    'C06': ' S5 also: cmdline/filename do not produce their value with the all-or-nothing append (a long value is cut, not refused).',
     'C11': ' N5: nothing reachable from the configuration constructor/destructor writes static storage.',
+    'C12': ' Q3 also: gethostname is given the data source\'s size parameter or a constant of at least 65.',
     'C14': ' U3 accepts a countdown walk over the list; an item judged through another helper ends "not decided".',
     'C17': ' W1 reads open flags from a local flags variable (bits set on every path / on some path).',
     'C18': ' Q3 also: the text read from the file is not stored into (or every store is undone on every path) before the new content is built.',
